@@ -273,6 +273,11 @@ def gen_shapes(tier, seed):
                 fam.append(base + [["new", extra[0]], ["mixin", 0, 3]])
                 for l3 in (False, True):
                     fam.append(base[:3] + [["copy", 2, l3], ["use", 3], ["reg", 0, extra[0]], ["reg", 1, extra1[-1]]])
+                # nothing is in use yet: a registration on the middle node, then changes high up, and only then the first use at the bottom
+                # (every change must be visible down the chain, linked or not)
+                fam.append([["new", a], ["variant", 0, b, l1], ["reg", 1, extra1[0]], ["variant", 1, c, l2], ["reg", 0, extra[0]], ["use", 2]])
+                fam.append([["new", a], ["variant", 0, b, l1], ["reg", 1, extra1[-1]], ["copy", 1, l2], ["reg", 0, extra[-1]], ["unreg", 0, a], ["use", 2]])
+                fam.append([["new", a], ["copy", 0, l1], ["reg", 1, b], ["variant", 1, c, l2], ["reg", 1, extra1[0]], ["reg", 0, extra[0]], ["use", 2], ["use", 1]])
     shapes = [dict(n=3, ops=h) for h in fam] + shapes
     return shapes, N + len(fam), True
 
